@@ -268,7 +268,8 @@ ASSUMPTIONS = [
     "datetimes are timestamp-backed stand-ins (engine/tsdt.py)",
     "folding cells: one definition whose TZID and TZNAMEs contain blanks, folded at every column of every line (and all lines at a common column), pinned per path, parsed natively and compared with the unfolded text's zone at three instants",
 ]
-OUTSIDE = ["J / n rule forms (not expressible as yearly BYDAY rules)", "instants before the first onset", "definitions with only DAYLIGHT components"]
+OUTSIDE = ["J / n rule forms (not expressible as yearly BYDAY rules)", "instants before the first onset", "definitions with only DAYLIGHT components",
+           "definitions with negative daylight saving (the DAYLIGHT component sets clocks back)"]
 
 
 def run(tier, seed, jobs):
